@@ -279,6 +279,8 @@ pub fn check_punches(events: &[Ev]) -> Result<usize, Violation> {
 
 pub struct CrashCfg {
     pub random_images: usize,
+    /// Enumerate all 2^k latest/durable page subsets when at most this many pages are dirty.
+    pub enumerate_up_to: usize,
     pub property: String,
 }
 
@@ -347,6 +349,13 @@ pub fn run_crash_history(cfg: &Cfg, ops: &[Op], ccfg: &CrashCfg, stats: &mut Sta
             modes.extend([ImageMode::AllLatest, ImageMode::MetaLatestDataDurable, ImageMode::DataLatestMetaDurable]);
             for r in 0..ccfg.random_images {
                 modes.push(ImageMode::Random(mix(seed, (boundary as u64) << 8 | r as u64)));
+            }
+            // few dirty pages: every latest/durable combination (2^k images) instead of a sample
+            if dirty <= ccfg.enumerate_up_to {
+                for mask in 1..(1u64 << dirty) - 1 {
+                    modes.push(ImageMode::Subset(mask));
+                }
+                stats.bump("crash.boundaries_with_all_page_subsets_enumerated");
             }
         } else {
             // nothing dirty: every mode yields the same image; skip if expectations are unchanged too
@@ -432,7 +441,7 @@ impl Check for W2Check {
     fn scripted(&self) -> Vec<Value> {
         let t = |k: u64| 5000 + 2 * k;
         let cfg = self.cfg(24);
-        let mk = |ops: Vec<Op>| json!({"world":"w2","run_seed":1,"random_images":2,"cfg":cfg.to_json(),"ops":ops.iter().map(Op::to_json).collect::<Vec<_>>()});
+        let mk = |ops: Vec<Op>| json!({"world":"w2","run_seed":1,"random_images":2,"enumerate_up_to":6,"cfg":cfg.to_json(),"ops":ops.iter().map(Op::to_json).collect::<Vec<_>>()});
         vec![
             // remove -> flush -> create: slot and extent reuse
             mk(vec![
@@ -471,12 +480,20 @@ impl Check for W2Check {
             Tier::Quick => 2,
             Tier::Thorough => 6,
         };
-        json!({"world":"w2","run_seed":rs,"random_images":random_images,"cfg":cfg.to_json(),"ops":ops.iter().map(Op::to_json).collect::<Vec<_>>()})
+        let enumerate_up_to = match tier {
+            Tier::Quick => 4,
+            Tier::Thorough => 7,
+        };
+        json!({"world":"w2","run_seed":rs,"random_images":random_images,"enumerate_up_to":enumerate_up_to,"cfg":cfg.to_json(),"ops":ops.iter().map(Op::to_json).collect::<Vec<_>>()})
     }
     fn exec(&self, case: &Value, stats: &mut Stats) -> RunResult<()> {
         let cfg = Cfg::from_json(&case["cfg"]);
         let ops = case_to_ops(case)?;
-        let ccfg = CrashCfg { random_images: case["random_images"].as_u64().unwrap_or(2) as usize, property: self.id.to_string() };
+        let ccfg = CrashCfg {
+            random_images: case["random_images"].as_u64().unwrap_or(2) as usize,
+            enumerate_up_to: case["enumerate_up_to"].as_u64().unwrap_or(0) as usize,
+            property: self.id.to_string(),
+        };
         let before = stats.get("crash.boundaries_inside_an_operation") + stats.get("fault.punch_events_checked");
         let r = run_crash_history(&cfg, &ops, &ccfg, stats, case["run_seed"].as_u64().unwrap_or(0));
         let after = stats.get("crash.boundaries_inside_an_operation") + stats.get("fault.punch_events_checked");
@@ -489,7 +506,7 @@ impl Check for W2Check {
         simplify_w1_op(op)
     }
     fn rule(&self) -> String {
-        let common = "seeded rawdb histories (no injected I/O errors, retain removes at most one region) executed once under the I/O tap; then a crash at EVERY I/O event boundary of that history (mmap store, set_len, sync, punch): sync-only image + all-latest + metadata-latest/data-durable + data-latest/metadata-durable + r random per-page version subsets (r=2 quick, 6 thorough), each opened with the real Database::open. ";
+        let common = "seeded rawdb histories (no injected I/O errors, retain removes at most one region) executed once under the I/O tap; then a crash at EVERY I/O event boundary of that history (mmap store, set_len, sync, punch): sync-only image + all-latest + metadata-latest/data-durable + data-latest/metadata-durable + r random per-page version subsets (r=2 quick, 6 thorough) + EVERY latest/durable combination of the dirty pages when at most 4 (quick) / 7 (thorough) pages are dirty, each opened with the real Database::open. ";
         match self.id {
             "C05" => format!("{common}Oracle: open succeeds; recovered extents aligned, pairwise disjoint, inside the file; every region untouched since its flush has exactly its flushed name/length/bytes; in the sync-only image every region not overwritten in place equals, as a whole (name,len,bytes), its state at the last completed flush (or a later completed Region::flush) or at the start of the interrupted flush. distinct = distinct op lists; non-trivial = at least one crash point fell strictly inside an operation"),
             _ => format!("{common}C12: compaction is inserted into every history; every hole-punch event is checked at the moment it is issued against the durable AND the current metadata image (must not intersect [start,start+len) of any region either describes); crash points inside and after compact go through the C05 oracle; around every compact the W1 executor checks placement, lengths, bytes and the file's logical length are unchanged. non-trivial = a punch event was checked or a crash point fell inside an operation"),
